@@ -1,4 +1,5 @@
 import ChipFiring.Theory.EwdFull
+import ChipFiring.Theory.Potential
 import ChipFiring.Model.Algos
 /-
   C01 — Winnability verdicts are exact.
@@ -9,8 +10,9 @@ import ChipFiring.Model.Algos
   * `Dv.total = deg`  — what every constructed divisor satisfies (C05.constructor_total);
   * `hcover`          — the BFS behind the debt concentration reaches every vertex
                         (`Theory.Bfs`: follows from connectedness);
-  * "returns"         — the statement is about runs that return; `Theory.Termination` gives
-                        the fuel bound under connectedness.
+  * `G.Connected`     — rank-function form of connectedness (needed for the degree ≥ genus
+                        shortcut only);
+  * "returns"         — the statement is about runs that return.
 -/
 namespace CF.C01
 open CF
@@ -28,13 +30,14 @@ theorem ewd_plain_verdict_exact (G : Graph n) (hs : ∀ v w, G.adj v w = G.adj w
   rw [hv, decide_eq_true_eq, winnable_congr G hle]
   exact (qreduced_verdict G q red.D hqr).symm
 
-/-- Optimized mode: the two shortcuts (negative degree ⇒ unwinnable, degree ≥ genus ⇒
-    winnable) and the reduction give the exact verdict as well. -/
-theorem ewd_optimized_verdict_exact (G : Graph n) (hG : G.WF)
+/-- Optimized mode: the two shortcuts (negative degree ⇒ unwinnable; degree ≥ genus ⇒ winnable,
+    which on a connected graph is the theorem `winnable_of_deg_ge_genus`: existence of the
+    q-reduced form + the acyclic burning orientation of degree g − 1) and the reduction give the
+    exact verdict as well. -/
+theorem ewd_optimized_verdict_exact (G : Graph n) (hG : G.WF) (hc : G.Connected)
     (hint : Fin n → List (Fin n)) (fuel : Nat) (Dv : Divisor n) (r : EwdOut n)
     (htot : Dv.total = deg Dv.deg)
     (hcover : ∀ q v, v ≠ q → v ∈ debtOrder G hint q)
-    (hplain : ∃ r0, ewd G hint fuel Dv false = some (.ok r0))
     (h : ewd G hint fuel Dv true = some (.ok r)) :
     r.verdict = true ↔ Winnable G Dv.deg := by
   rcases ewd_opt_ok G h with ⟨hneg, hv, -⟩ | ⟨-, hge, hv, -⟩ | ⟨-, -, q, red, -, -, -, hred, hv⟩
@@ -43,36 +46,34 @@ theorem ewd_optimized_verdict_exact (G : Graph n) (hG : G.WF)
     simp [this]
   · rw [hv]
     simp only [true_iff]
-    obtain ⟨r0, h0⟩ := hplain
-    obtain ⟨q, red, -, -, -, hred, -⟩ := ewd_plain_ok G h0
-    obtain ⟨hle, hcl, hst, hall⟩ := reduceLoop_spec G hG.symm q _ fuel fuel _ _ _ red hred
-    obtain ⟨-, hqr⟩ := reduceLoop_qreduced G hG.symm q _ (hcover q) fuel fuel _ _ _ red hred
-    rw [winnable_congr G hle, qreduced_verdict G q red.D hqr]
-    by_contra hneg
-    rw [hst] at hall
-    have h1 := deg_le_genus_sub_one hG q red.D hall (by omega)
-    have h2 := deg_linEq G hG.symm hle
-    omega
+    rcases Nat.eq_zero_or_pos n with hn | hn
+    · exfalso
+      subst hn
+      have ht : G.total = 0 := by have := hG.total_eq; simp at this; exact this
+      have hd : deg Dv.deg = 0 := by simp [deg]
+      unfold Graph.genus at hge
+      rw [htot, hd, ht] at hge
+      simp at hge
+    · exact winnable_of_deg_ge_genus G hG hc hn Dv.deg (by rw [← htot]; exact hge)
   · obtain ⟨hle, hqr⟩ := reduceLoop_qreduced G hG.symm q _ (hcover q) fuel fuel _ _ _ red hred
     rw [hv, decide_eq_true_eq, winnable_congr G hle]
     exact (qreduced_verdict G q red.D hqr).symm
 
 /-- both modes always agree -/
-theorem ewd_modes_agree (G : Graph n) (hG : G.WF)
+theorem ewd_modes_agree (G : Graph n) (hG : G.WF) (hc : G.Connected)
     (hint : Fin n → List (Fin n)) (fuel : Nat) (Dv : Divisor n) (r0 r : EwdOut n)
     (htot : Dv.total = deg Dv.deg)
     (hcover : ∀ q v, v ≠ q → v ∈ debtOrder G hint q)
     (h0 : ewd G hint fuel Dv false = some (.ok r0))
     (h : ewd G hint fuel Dv true = some (.ok r)) : r.verdict = r0.verdict := by
   have a := ewd_plain_verdict_exact G hG.symm hint fuel Dv r0 hcover h0
-  have b := ewd_optimized_verdict_exact G hG hint fuel Dv r htot hcover ⟨r0, h0⟩ h
+  have b := ewd_optimized_verdict_exact G hG hc hint fuel Dv r htot hcover h
   cases hr : r.verdict <;> cases hr0 : r0.verdict <;> simp_all
 
 /-- `is_winnable(D)` (= optimized EWD) is exact -/
-theorem isWinnable_exact (G : Graph n) (hG : G.WF) (fuel : Nat) (Dv : Divisor n) (b : Bool)
+theorem isWinnable_exact (G : Graph n) (hG : G.WF) (hc : G.Connected) (fuel : Nat) (Dv : Divisor n) (b : Bool)
     (htot : Dv.total = deg Dv.deg)
     (hcover : ∀ q v, v ≠ q → v ∈ debtOrder G (fun _ => []) q)
-    (hplain : ∃ r0, ewd G (fun _ => []) fuel Dv false = some (.ok r0))
     (h : isWinnable G fuel Dv = some (.ok b)) : b = true ↔ Winnable G Dv.deg := by
   unfold isWinnable at h
   cases he : ewd G (fun _ => []) fuel Dv true with
@@ -83,7 +84,7 @@ theorem isWinnable_exact (G : Graph n) (hG : G.WF) (fuel : Nat) (Dv : Divisor n)
     | ok r =>
       simp only [he, Option.map_some, Except.map] at h
       injection h with h; injection h with h; subst h
-      exact ewd_optimized_verdict_exact G hG _ fuel Dv r htot hcover hplain he
+      exact ewd_optimized_verdict_exact G hG hc _ fuel Dv r htot hcover he
 
 /-- the recorded trace is not an input of the result: the verdict, divisor and orientation are
     computed by the same function whether or not recording is on (recording is modelled as the
